@@ -225,12 +225,12 @@ theorem inspect_vanillaq (ch : List Bytes) (ok : ChunkOK ch) :
   simp only [hasSuffix_append, if_true, trimSuffix_append, consumeParamFromRight_eq, Res.ok_bind, h5, ne_eq,
     not_true_eq_false, if_false, h6, Res.pure_eq, nilEmpty]
 
-/-- the fragments the decoder should see in `encodeStatus d s cuts` -/
-def expected (d : Dialect) (s : Status) (cuts : List Nat) : List Fragment :=
+/-- the fragments the decoder should see in `encodeFlat d fl cuts` -/
+def expected (d : Dialect) (fl : List Bytes) (cuts : List Nat) : List Fragment :=
   match d with
-  | .vanilla => [⟨true, 1, .vanilla, body (flat s) ++ FINAL ++ sfxVanilla⟩]
-  | .vanillaq => [⟨true, 1, .vanilla, body (flat s)⟩]
-  | _ => expFrags d (chunks (flat s) cuts).length 0 (chunks (flat s) cuts)
+  | .vanilla => [⟨true, 1, .vanilla, body fl ++ FINAL ++ sfxVanilla⟩]
+  | .vanillaq => [⟨true, 1, .vanilla, body fl⟩]
+  | _ => expFrags d (chunks fl cuts).length 0 (chunks fl cuts)
 
 theorem numbered_singleton (v : Ver) (data : Bytes) : Numbered [⟨true, 1, v, data⟩] v := by
   refine ⟨by simp, ?_⟩
@@ -239,7 +239,7 @@ theorem numbered_singleton (v : Ver) (data : Bytes) : Numbered [⟨true, 1, v, d
   subst this
   simp
 
-theorem expected_numbered (d : Dialect) (s : Status) (cuts : List Nat) : Numbered (expected d s cuts) d.ver := by
+theorem expected_numbered (d : Dialect) (fl : List Bytes) (cuts : List Nat) : Numbered (expected d fl cuts) d.ver := by
   cases d with
   | vanilla => exact numbered_singleton _ _
   | vanillaq => exact numbered_singleton _ _
@@ -253,14 +253,14 @@ theorem framingBytes_eq (d : Dialect) (fl : List Bytes) :
   rw [body_append]; rfl
 
 /-- concatenating the expected fragment data gives the rendered field sequence plus the framing fields -/
-theorem expected_data (d : Dialect) (s : Status) (cuts : List Nat) :
-    ((expected d s cuts).map (·.data)).flatten =
-      body (flat s ++ (framingFields d).flatMap fun kv => [kv.1, kv.2]) := by
-  have hfrag : ∀ d' : Dialect, ((expFrags d' (chunks (flat s) cuts).length 0 (chunks (flat s) cuts)).map (·.data)).flatten =
-      body (flat s ++ (framingFields d').flatMap fun kv => [kv.1, kv.2]) := by
+theorem expected_data (d : Dialect) (fl : List Bytes) (cuts : List Nat) :
+    ((expected d fl cuts).map (·.data)).flatten =
+      body (fl ++ (framingFields d).flatMap fun kv => [kv.1, kv.2]) := by
+  have hfrag : ∀ d' : Dialect, ((expFrags d' (chunks fl cuts).length 0 (chunks fl cuts)).map (·.data)).flatten =
+      body (fl ++ (framingFields d').flatMap fun kv => [kv.1, kv.2]) := by
     intro d'
-    have hne : chunks (flat s) cuts ≠ [] := chunksFrom_ne_nil _ _ _
-    rw [expFrags_data d' _ 0 (chunks (flat s) cuts) hne (by omega), ← framingBytes_eq]
+    have hne : chunks fl cuts ≠ [] := chunksFrom_ne_nil _ _ _
+    rw [expFrags_data d' _ 0 (chunks fl cuts) hne (by omega), ← framingBytes_eq]
     congr 1
     have : ∀ chs : List (List Bytes), (chs.map body).flatten = body chs.flatten := by
       intro chs
@@ -281,39 +281,39 @@ theorem expected_data (d : Dialect) (s : Status) (cuts : List Nat) :
   | amn => exact hfrag _
 
 /-- the decoder sees exactly the expected fragments in the encoded datagrams -/
-theorem encode_insp (d : Dialect) (s : Status) (wf : WfStatus s) (cuts : List Nat)
+theorem encode_insp (d : Dialect) (fl : List Bytes) (ok : FlatOK fl) (cuts : List Nat)
     (hc : cuts.length + 1 < 9223372036854775808) :
-    (encodeStatus d s cuts).map insp = (expected d s cuts).map some := by
+    (encodeFlat d fl cuts).map insp = (expected d fl cuts).map some := by
   have hfrag : ∀ d' : Dialect, d'.fragmenting = true →
-      (fragmentsFrom d' (chunks (flat s) cuts).length 0 (chunks (flat s) cuts)).map insp =
-        (expFrags d' (chunks (flat s) cuts).length 0 (chunks (flat s) cuts)).map some := by
+      (fragmentsFrom d' (chunks fl cuts).length 0 (chunks fl cuts)).map insp =
+        (expFrags d' (chunks fl cuts).length 0 (chunks fl cuts)).map some := by
     intro d' hd'
     apply map_insp_fragmentsFrom d' hd'
-    · exact fun ch hch => ChunkOK_of_mem_chunks s wf cuts ch hch
-    · rw [show (chunks (flat s) cuts).length = cuts.length + 1 from chunksFrom_length _ _ _]; omega
+    · exact fun ch hch => ChunkOK_of_mem_chunks fl ok cuts ch hch
+    · rw [show (chunks fl cuts).length = cuts.length + 1 from chunksFrom_length _ _ _]; omega
   cases d with
   | vanilla =>
-    have : inspectFragment (body (flat s) ++ FINAL ++ sfxVanilla) =
-        .ok ⟨true, 1, .vanilla, body (flat s) ++ FINAL ++ sfxVanilla⟩ := by
+    have : inspectFragment (body fl ++ FINAL ++ sfxVanilla) =
+        .ok ⟨true, 1, .vanilla, body fl ++ FINAL ++ sfxVanilla⟩ := by
       unfold inspectFragment
       rw [hasSuffix_append, if_pos rfl]
-    simp only [encodeStatus, expected, List.map_cons, List.map_nil, insp, this]
+    simp only [encodeFlat, expected, List.map_cons, List.map_nil, insp, this]
     rfl
   | vanillaq =>
-    have ok : ChunkOK (flat s) := ChunkOK_of_infix s wf _ List.infix_rfl
-    simp only [encodeStatus, expected, List.map_cons, List.map_nil, insp, inspect_vanillaq _ ok]
+    have ok : ChunkOK fl := ChunkOK_of_infix fl ok _ List.infix_rfl
+    simp only [encodeFlat, expected, List.map_cons, List.map_nil, insp, inspect_vanillaq _ ok]
     rfl
   | gs1 => exact hfrag _ rfl
   | am => exact hfrag _ rfl
   | amq => exact hfrag _ rfl
   | amn => exact hfrag _ rfl
 
-theorem encode_ne_nil (d : Dialect) (s : Status) (wf : WfStatus s) (cuts : List Nat)
-    (hc : cuts.length + 1 < 9223372036854775808) : encodeStatus d s cuts ≠ [] := by
+theorem encode_ne_nil (d : Dialect) (fl : List Bytes) (ok : FlatOK fl) (cuts : List Nat)
+    (hc : cuts.length + 1 < 9223372036854775808) : encodeFlat d fl cuts ≠ [] := by
   intro e
-  have := congrArg List.length (encode_insp d s wf cuts hc)
+  have := congrArg List.length (encode_insp d fl ok cuts hc)
   rw [e] at this
   simp only [List.map_nil, List.length_nil, List.length_map] at this
-  exact (expected_numbered d s cuts).ne (List.length_eq_zero_iff.mp this.symm)
+  exact (expected_numbered d fl cuts).ne (List.length_eq_zero_iff.mp this.symm)
 
 end Swat4.GS1
